@@ -1,2 +1,48 @@
-def inplace_discipline(prog, rep):
-    pass
+"""C06-D3 in-place discipline of PatternedTensor / MultiTensor, from the E1 effect summaries."""
+from __future__ import annotations
+from typing import List
+from ..model import Program
+from ..report import Report
+from ..effects import effects_for
+
+WRITES_ARG = {('PatternedTensor', 'masked_fill_into'): 'dest'}
+CTOR = {'__init__', '__post_init__'}
+SELF_WRITERS_NO_UNDERSCORE = {('MultiTensor', 'add_single'), ('MultiTensor', '__setitem__'), ('MultiTensor', '__delitem__')}
+
+
+def inplace_discipline(prog: Program, rep: Report) -> None:
+    rule = 'C06-D3 in-place-discipline'
+    rep.rule('C06-D3', 'in-place discipline (effect analysis): a PatternedTensor / MultiTensor method whose name does not end in `_` (and is not __i*__ / a documented exception) has no write effect on self or on any argument; `_` methods and __i*__ write only self; clone() results share no storage with self')
+    eng = effects_for(prog)
+    n = 0
+    for mod, cname in (('fggs.indices', 'PatternedTensor'), ('fggs.multi', 'MultiTensor')):
+        ci = prog.cls(mod, cname)
+        for name, m in sorted(ci.methods.items()):
+            if name in CTOR:
+                continue
+            S = eng.summaries[m]
+            pos = m.positional_params()
+            selfn = pos[0] if pos and not m.is_static else None
+            effs = [e for e in S.writes if e.root.startswith('P:')]
+            inplace_name = (name.endswith('_') and not name.endswith('__')) or (name.startswith('__i') and name.endswith('__') and name not in ('__iter__', '__init__')) \
+                or (cname, name) in SELF_WRITERS_NO_UNDERSCORE
+            allowed_roots: List[str] = []
+            if inplace_name and selfn:
+                allowed_roots.append(selfn)
+            if (cname, name) in WRITES_ARG:
+                allowed_roots.append(WRITES_ARG[(cname, name)])
+            bad = [e for e in effs if e.root[2:].split('.')[0] not in allowed_roots]
+            n += 1
+            if not bad:
+                rep.ob(rule, m.fq(), f"{cname}.{name}: " + ('writes only ' + ', '.join(allowed_roots) if allowed_roots else 'no write effect on self or arguments'), m.loc(), True,
+                       f"{len(effs)} write(s) recorded, all on {allowed_roots}" if effs else 'effect summary is empty')
+            else:
+                seen = set()
+                for e in bad:
+                    k = (e.root[2:].split('.')[0], e.text)
+                    if k in seen: continue
+                    seen.add(k)
+                    rep.ob(rule, m.fq(), f"{cname}.{name} writes `{k[0]}` via `{e.text}`", m.loc(), False,
+                           f"{e.kind} at {e.loc} on {e.root}" + (' (call chain: ' + ' -> '.join(e.via) + ')' if e.via else '')
+                           + ('; a method without trailing underscore must leave its operands untouched' if not inplace_name else '; an in-place method may only modify its receiver'))
+    rep.floor('C06-D3 methods', n, 90)
